@@ -31,6 +31,8 @@ Rule table (C++ construct -> primitive):
     it->m_expire_time / it->m_keyed_elements_position (read)   l_deref, node_get, tn_expire / Some (tn_keyed)
     it->m_expire_time = t                            l_deref, node_get, setk n (set_tn_expire ..)
     m_ttl_list.emplace_back(t, mit)                  mit_key; list ++ [next]; nodes ++ [(next, {t, k})]; next := S next
+    m_ttl_list.emplace(m_ttl_list.end(), t, mit)     the same steps (insertion before end() is insertion at the back); its value is
+                                                     the iterator to the new node, It next  (any other position is refused)
     m_ttl_list.erase(it)                             l_erase_node; remk n nodes  (UB: end(), invalid)
     m_ttl_list.erase(first, last)                    l_erase_nodes; drop_nodes (UB: not a range of the list)
     m_ttl_list.clear()                               list := []; nodes := []
@@ -154,6 +156,29 @@ class Ext(cpp2coq.Tr):
                         "do %s <- node_get %s %s;" % (e, self.nodes(st), n)], n, e
         return None
 
+    def list_append(self, args, st, env, what):
+        """a ttl_element constructed from (t, mit) in a new node at the back of m_ttl_list: (binds, identity of the node)"""
+        b1, t1, k1 = self.E(args[0], st, env)
+        b2, t2, k2 = self.E(args[1], st, env)
+        if (k1, k2) != ("time", "mit"):
+            raise Unsupported("list %s(%s, %s)" % (what, k1, k2))
+        kk, nid = self.fresh("k"), self.fresh("id")
+        out = b1 + b2 + ["do %s <- mit_key %s;" % (kk, t2), "let %s := (ul_next %s) in" % (nid, st[0])]
+        out += self.setf("ul_list", "(%s ++ [%s])" % (self.l(st), nid), st)
+        out += self.setf("ul_nodes", "(%s ++ [(%s, {| tn_expire := %s; tn_keyed := %s |})])" % (self.nodes(st), nid, t1, kk), st)
+        out += self.setf("ul_next", "(S %s)" % nid, st)
+        return out, nid
+
+    def list_emplace(self, args, st, env):
+        """m_ttl_list.emplace(pos, t, mit) with pos = m_ttl_list.end(): (binds, iterator to the new node)"""
+        if len(args) != 3:
+            raise Unsupported("list emplace with %d arguments" % len(args))
+        b0, t0, k0 = self.E(args[0], st, env)
+        if k0 != "liter" or t0 != "End" or b0:
+            raise Unsupported("list emplace at a position other than end()")
+        out, nid = self.list_append(args[1:], st, env, "emplace(end(), ..)")
+        return out, "(It %s)" % nid
+
     def is_assign(self, c):
         return (c["k"] == "bin" and c["n"] == "=") or (c["k"] == "op" and c["n"] == "operator=" and len(c["a"]) == 2)
 
@@ -242,6 +267,9 @@ class Ext(cpp2coq.Tr):
                 raise Unsupported("map.%s as a value" % m)
             if obj["k"] == "field" and self.f_by_cpp.get(obj["n"], (None, None))[1] == "list" and m in ("back", "front", "size", "empty"):
                 raise Unsupported("list.%s" % m)
+            if obj["k"] == "field" and self.f_by_cpp.get(obj["n"], (None, None))[1] == "list" and m == "emplace":
+                b, t = self.list_emplace(args, st, env)
+                return b, t, "liter"
         return None
 
     # ---------------------------------------------------------------- statements
@@ -313,16 +341,9 @@ class Ext(cpp2coq.Tr):
                 raise Unsupported("statement map.%s" % m)
             if fk == "list":
                 if m == "emplace_back" and len(args) == 2:
-                    b1, t1, k1 = self.E(args[0], st, env)
-                    b2, t2, k2 = self.E(args[1], st, env)
-                    if (k1, k2) != ("time", "mit"):
-                        raise Unsupported("list emplace_back(%s, %s)" % (k1, k2))
-                    kk, nid = self.fresh("k"), self.fresh("id")
-                    out = b1 + b2 + ["do %s <- mit_key %s;" % (kk, t2), "let %s := (ul_next %s) in" % (nid, st[0])]
-                    out += self.setf("ul_list", "(%s ++ [%s])" % (self.l(st), nid), st)
-                    out += self.setf("ul_nodes", "(%s ++ [(%s, {| tn_expire := %s; tn_keyed := %s |})])" % (self.nodes(st), nid, t1, kk), st)
-                    out += self.setf("ul_next", "(S %s)" % nid, st)
-                    return out
+                    return self.list_append(args, st, env, "emplace_back")[0]
+                if m == "emplace":
+                    return self.list_emplace(args, st, env)[0]       # the returned iterator is dropped
                 if m == "erase" and len(args) == 1:
                     b1, t1, k1 = self.E(args[0], st, env)
                     if k1 != "liter":
